@@ -332,7 +332,7 @@ func parseCondition(firstSnippet *snippet, getSnippet func() (*snippet, error)) 
 	return Where(firstSnippet.text, operator, value.text), nil
 }
 
-var escapeReplacer = regexp.MustCompile(`\\([^\\])`)
+var escapeReplacer = regexp.MustCompile(`(?s)\\(.)`)
 
 // prepToken removes surrounding parenthesis and escape characters.
 func prepToken(text string) string {
